@@ -542,13 +542,31 @@ def destOf (fs : FS) (f : String) (dp : Path) : Option Path :=
     | .error _ => none
   | _, _ => none
 
-/-- `src.copy(<object at (g, S)>, dst, dst_group)`: deep copy with fresh object ids -/
+/-- the parent path of a destination passes through a soft link (walk of `mkdirP` without creating
+anything) -/
+def softOnPath (h : H5File) : Path → List String → Bool
+  | _, [] => false
+  | cur, x :: rest =>
+    match lookupK h.entries (cur ++ [x]) with
+    | some (.group _ _) => softOnPath h (cur ++ [x]) rest
+    | some (.soft _) => true
+    | _ => false
+
+def dstThroughSoft (fs : FS) (df : String) (dp : Path) : Bool :=
+  match getFile fs df with
+  | some hd => softOnPath hd [] dp.dropLast
+  | none => false
+
+/-- `src.copy(<object at (g, S)>, dst, dst_group)`: deep copy with fresh object ids.  `H5Ocopy`
+refuses a destination path that passes through a soft link ("address undefined", RuntimeError,
+nothing copied) — creating a group or a link through one works, copying does not. -/
 def deepCopyTo (fs1 : FS) (g : String) (S : Path) (df : String) (dp : Path) : FS × Outcome :=
   match getFile fs1 g with
   | none => (fs1, .corner "unreachable")
   | some hs =>
     match lookupK hs.entries S with
     | some (.group _ _) =>
+      if dstThroughSoft fs1 df dp then (fs1, .err .runtime) else
       placeAt fs1 df dp (fun h1 => (shiftOids h1.next (getRegion hs.entries S), h1.next + hs.next)) .runtime
     | _ => (fs1, .corner "source is not a group")
 
